@@ -2,6 +2,8 @@ import AgModel.Proofs.ProgressCluster
 import AgModel.Proofs.ProgressSkip
 import AgModel.Proofs.ProgressOrder
 import AgModel.Proofs.ClusterDec
+import AgModel.Proofs.BundleReplay
+import AgModel.Props.C10Cluster
 /-!
 # C02 — progress of the cluster of executable model nodes under timely delivery
 
@@ -409,6 +411,96 @@ theorem timely_finalization_interleaved_partial (c : Cfg) (hpos : 0 < c.stakes.s
   obtain ⟨_, a, x, hg, hf, hx, hxh⟩ := key i hi'
   have hs0 : s ≠ 0 := by have := (hr i hi').trk.plt; omega
   exact ⟨a, by rw [Blk.mk'_slot]; exact hg, Or.inr ⟨hf, x, hx, by rw [Blk.mk'_hash _ _ hs0]; exact hxh⟩⟩
+
+/-! ## Stage C — monotonicity: what a pool reports finalized stays reported until the slot is pruned -/
+
+theorem poolLog_append (p : Pool) (a b : List PoolOp) : poolLog p (a ++ b) = poolLog p a ++ poolLog (poolRun p a).1 b := by
+  induction a generalizing p with
+  | nil => simp [poolLog, poolRun]
+  | cons op a ih => simp only [List.cons_append, poolLog, poolRun, ih, List.append_assoc]
+
+/-- **Extra valid events cannot undo a finalization.** In every valid, admitted run of the cluster with less than 20 %
+    Byzantine stake — arbitrary interleavings, Byzantine votes and certificates, duplicates, timeouts —: if after the prefix
+    `pre` the pool of node `i` reports block `b` finalized (`PoolImpl::get_final_certs`), then after any continuation `post` it
+    still does, as long as `b`'s slot is at or above the pool's pruning watermark (`first_unpruned_slot`; below it the slot
+    state is dropped, the block being finalized or an ancestor of a finalized one). The held certificates are never
+    replaced or lost: every held certificate is logged (C18 `hl_poolRun`), every logged certificate of a retained slot is
+    held by kind and block (`held_poolRun`). -/
+theorem poolFinalized_persists (c : Cfg) (pre post : List Ev) (hv : Valid c (init c) (pre ++ post))
+    (hw : Admitted c (pre ++ post)) (hb : 5 * Spec.w (stakeFn c) (byz c) < Spec.total (stakeFn c)) (i : ℕ) (b : Blk)
+    (hf : PoolFinalized (run (init c) pre) i b)
+    (hkeep : (run (init c) (pre ++ post) i).pool.fin.first ≤ b.slot) : PoolFinalized (run (init c) (pre ++ post)) i b := by
+  have hvp : Valid c (init c) pre := ((valid_append c _ pre post).mp hv).1
+  have hwp : Admitted c pre := fun x hx => hw x (List.mem_append_left _ hx)
+  obtain ⟨hp1, _⟩ := cluster_pools_consistent c pre hvp hwp hb i
+  obtain ⟨hp2, hc2⟩ := cluster_pools_consistent c (pre ++ post) hv hw hb i
+  have hops : poolOps (proj i (pre ++ post)) = poolOps (proj i pre) ++ poolOps (proj i post) := by
+    rw [proj_append]; unfold poolOps; rw [List.filterMap_append]
+  generalize poolOps (proj i pre) = ops1 at *
+  generalize poolOps (proj i post) = ops2 at *
+  rw [hops] at hp2 hc2
+  rw [poolLog_append] at hc2
+  -- held ⇒ logged, for the pool after `pre`
+  have hall := hl_poolRun ops1 { epoch := c.epoch i } [] (by intro st hst; simp at hst)
+  simp only [List.nil_append] at hall
+  -- logged ⇒ held, for the pool after `pre ++ post`
+  have hheld := (held_poolRun (ops1 ++ ops2) { epoch := c.epoch i } [] (HeldLog.init _) (by
+    rw [List.nil_append, poolLog_append]; exact hc2)).logHeld
+  rw [List.nil_append, poolLog_append] at hheld
+  rw [← hp2] at hheld
+  obtain ⟨st, hg, hor⟩ := hf
+  rw [hp1] at hg
+  obtain ⟨hwf, hlog⟩ := hall st (getSlot_mem _ _ _ hg).1
+  have hsl : st.slot = b.slot := (getSlot_mem _ _ _ hg).2
+  obtain ⟨w1, _, _, w4, w5⟩ := hwf
+  rcases hor with ⟨x, hx, hxh⟩ | ⟨hfin, x, hx, hxh⟩
+  · obtain ⟨hk, hs⟩ := w4 x hx
+    obtain ⟨st', h1, h2⟩ := hheld x (List.mem_append_left _ (hlog x ((mem_certs st x).mpr (Or.inr (Or.inl hx)))))
+      (by rw [hs, hsl]; exact hkeep)
+    rw [hs, hsl] at h1
+    unfold HeldKey at h2
+    simp only [hk] at h2
+    obtain ⟨c', hc', hh⟩ := h2
+    exact ⟨st', h1, Or.inl ⟨c', hc', hh.trans hxh⟩⟩
+  · obtain ⟨y, hy⟩ := option_some_of_isSome hfin
+    obtain ⟨hky, hsy⟩ := w5 y hy
+    obtain ⟨hkx, hsx⟩ := w1 x hx
+    obtain ⟨st1, g1, k1⟩ := hheld y (List.mem_append_left _ (hlog y ((mem_certs st y).mpr (Or.inl hy))))
+      (by rw [hsy, hsl]; exact hkeep)
+    obtain ⟨st2, g2, k2⟩ := hheld x (List.mem_append_left _ (hlog x ((mem_certs st x).mpr (Or.inr (Or.inr (Or.inl hx))))))
+      (by rw [hsx, hsl]; exact hkeep)
+    rw [hsy, hsl] at g1
+    rw [hsx, hsl, g1] at g2
+    cases g2
+    unfold HeldKey at k1 k2
+    simp only [hky] at k1
+    simp only [hkx] at k2
+    obtain ⟨c', hc', hh⟩ := k2
+    exact ⟨st1, g1, Or.inr ⟨k1, c', hc', hh.trans hxh⟩⟩
+
+/-- **A correct node that notarized a block of slot `s` never casts a skip vote for `s`** — in any valid run, whatever is mixed
+    in (its skip vote could only come from a timeout *before* the block, which is what "no premature timeout" excludes): the
+    log form of C01 `cluster_notar_no_skip`. -/
+theorem notarized_never_skipped (c : Cfg) (evs : List Ev) (hv : Valid c (init c) evs) (hpos : 0 < c.stakes.sum) (v : Fin c.n)
+    (hc : c.correct v.val = true) (s h ps ph : ℕ)
+    (hm : Votor.Item.out (.notar s h ps ph) ∈ (run (init c) evs v.val).votor.log) :
+    Votor.Item.out (.skip s) ∉ (run (init c) evs v.val).votor.log := by
+  obtain ⟨F⟩ := nodeFacts c evs hv hpos v.val hc
+  have hs0 : s ≠ 0 := by
+    intro e0
+    have := no_slot_zero c evs v F hc _ hm (by rw [e0]; rfl)
+    cases this
+  intro hsk
+  have hn : (histOf c (run (init c) evs)).notar v (Blk.mk' s h) := by
+    intro _
+    right
+    rw [Blk.mk'_slot, Blk.mk'_hash _ _ hs0]
+    exact ⟨ps, ph, hm⟩
+  apply cluster_notar_no_skip c evs v F hc (Blk.mk' s h) hn
+  intro _
+  show Votor.Item.out (.skip (Blk.mk' s h).slot) ∈ _
+  rw [Blk.mk'_slot]
+  exact hsk
 
 /-! ## non-vacuity, and the necessity of the hypotheses -/
 namespace Progress
